@@ -67,12 +67,26 @@ def run_one(prop, tier, seed, i, n, scratch, timeout, replay=None):
     env = shard_env(sdir)
     env["PYTHONPYCACHEPREFIX"] = os.path.join(scratch, "pyc")  # shared by shards
     env["VF_SHARD_BUDGET_S"] = str(max(5, int(timeout * 0.8)))
+    # str/bytes hashing (set and dict-of-str iteration order) differs between real processes: shard 0 keeps 0, the others get a
+    # seed derived from (VERIF_SEED, shard); a replay runs under the seed recorded with the violation
+    env["PYTHONHASHSEED"] = os.environ.get("VF_HASHSEED") or ("0" if i == 0 else str((seed * 1000003 + i * 7919 + 1) % 2**32))
     cmd = [PY, "-m", "vf.shard", prop, tier, str(seed), str(i), str(n), sdir, out]
+    cwd = HERE
     if replay:
         cmd.append(replay)
+        try:
+            with open(replay) as f:
+                rj = json.load(f)
+            if rj.get("hash_seed") is not None:
+                env["PYTHONHASHSEED"] = str(rj["hash_seed"])
+        except Exception:  # noqa
+            pass
+    elif i % 2 == 1:
+        cwd = sdir  # the current directory is part of the environment, too: odd shards run from their scratch directory
+    env["VF_CWD_KIND"] = "verif" if cwd == HERE else "scratch"
     t0 = time.time()
     try:
-        p = subprocess.run(cmd, cwd=HERE, env=env, timeout=timeout, stdout=subprocess.PIPE,
+        p = subprocess.run(cmd, cwd=cwd, env=env, timeout=timeout, stdout=subprocess.PIPE,
                            stderr=subprocess.STDOUT)
         status = p.returncode
         tail = p.stdout.decode("utf-8", "replace")[-2000:]
@@ -154,7 +168,7 @@ def drive(mod, prop, tier, seed, scratch, replay, t0):
             if len(merged["samples"]) < 8:
                 merged["samples"].append(s)
         for k, v in rep["violations"].items():
-            m = merged["violations"].setdefault(k, {"count": 0, "msg": v["msg"], "cases": [], "host_tz": rep.get("host_tz")})
+            m = merged["violations"].setdefault(k, {"count": 0, "msg": v["msg"], "cases": [], "host_tz": rep.get("host_tz"), "hash_seed": rep.get("hash_seed")})
             m["count"] += v["count"]
             m["cases"].extend(v["cases"][: max(0, 3 - len(m["cases"]))])
         for k, v in rep["counters"].items():
@@ -223,7 +237,7 @@ def drive(mod, prop, tier, seed, scratch, replay, t0):
         rpath = os.path.join(rdir, safe_name(key) + ".json")
         with open(rpath, "w") as f:
             json.dump({"property": prop, "key": key, "msg": v["msg"], "count": v["count"],
-                       "seed": seed, "tier": tier, "host_tz": v.get("host_tz"), "case": v["cases"][0] if v["cases"] else None,
+                       "seed": seed, "tier": tier, "host_tz": v.get("host_tz"), "hash_seed": v.get("hash_seed"), "case": v["cases"][0] if v["cases"] else None,
                        "more_cases": v["cases"][1:]}, f, indent=1)
         lines.append(f"VIOLATION property={prop} replay={rpath}")
         lines.append(f"  key={key} count={v['count']} :: {v['msg'][:300]}")
